@@ -587,6 +587,28 @@ fn exec_op(ctx: &mut Ctx<'_>, op: &Op) -> Res {
             ctx.iter = Some(AnyIter::SetKeys(s.iter(g)));
             Res::Unit
         }
+        (_, Op::Collect(kv, hint)) => {
+            let items: Vec<(Key, Val)> = kv.iter().map(|(k, v)| (Key::new(*k), Val::new(*v))).collect();
+            let m: Map = if *hint { items.into_iter().collect() } else { items.into_iter().filter(|_| true).collect() };
+            let mut out = Vec::new();
+            {
+                let g = m.guard();
+                for (k, v) in m.iter(&g) {
+                    let (kk, ki) = kread(ctx, k, "collect().iter");
+                    let vi = vread(ctx, v, "collect().iter").0;
+                    out.push(Item { k: kk, kinst: ki, vid: vi, clock: sched::now() });
+                }
+                // lookups must agree with iteration
+                for (k, _) in kv {
+                    if m.get(&KeyQ(*k), &g).is_none() {
+                        ctx.errors.push(format!("t{} collect(): key {} was supplied but lookup in the collected map fails", ctx.thread, k));
+                    }
+                }
+            }
+            ctx.refs.retain(|r| r.got_clock == u64::MAX); // references into the temporary map die with it
+            drop(m);
+            Res::Items { items: out, done: true }
+        }
         /* ---------------- common ---------------- */
         (_, Op::IterNext(n)) => {
             let mut items = Vec::new();
